@@ -95,6 +95,97 @@ theorem units_of_different_types_do_not_compare {u v} (c : Cmp)
   have : (s.reg.unitCls u != s.reg.unitCls v) = true := by simpa using h
   simp [this]
 
+/-! ### consequences for the operators themselves: equivalence, total order -/
+
+/-- `x` is a quantity of the type `c` (which has a reference unit) in a unit of positive scale `a` -/
+structure InType (s : QState) (c : Nat) (x : Qty) (a : ℚ) : Prop where
+  cls : s.reg.unitCls x.unit = c
+  hasRef : (s.reg.cls c).refUnit.isSome = true
+  scale : (s.reg.unit x.unit).equiv = some a
+  pos : 0 < a
+
+theorem InType.linear {c x y a b} (hx : InType s c x a) (hy : InType s c y b) :
+    Linear s.reg y.unit x.unit b a :=
+  ⟨by rw [hx.cls, hy.cls], by rw [hy.cls]; exact hy.hasRef, hy.scale, hx.scale⟩
+
+/-- the reference value -/
+def refVal (x : Qty) (a : ℚ) : ℚ := a * x.amount
+
+theorem eq_is_ref_eq {c x y a b} (hx : InType s c x a) (hy : InType s c y b) :
+    s.qtyEq x y = .ok (decide (refVal x a = refVal y b)) :=
+  eq_iff_reference_values_equal (hx.linear hy) (ne_of_gt hx.pos)
+
+theorem cmp_is_ref_cmp {c x y a b} (o : Cmp) (hx : InType s c x a) (hy : InType s c y b) :
+    s.qtyCmp o x y = .ok (o.eval (refVal x a) (refVal y b)) :=
+  cmp_iff_reference_values o (hx.linear hy) hx.pos
+
+/-- **equality is an equivalence relation** on the quantities of one type -/
+theorem equality_reflexive {c x a} (hx : InType s c x a) : s.qtyEq x x = .ok true := by
+  rw [eq_is_ref_eq hx hx]; simp
+
+theorem equality_symmetric {c x y a b} (hx : InType s c x a) (hy : InType s c y b) :
+    s.qtyEq x y = s.qtyEq y x := by
+  rw [eq_is_ref_eq hx hy, eq_is_ref_eq hy hx]
+  congr 1; rw [Bool.eq_iff_iff]; simp only [decide_eq_true_eq]; exact eq_comm
+
+theorem equality_transitive {c x y z a b d} (hx : InType s c x a) (hy : InType s c y b)
+    (hz : InType s c z d) (h1 : s.qtyEq x y = .ok true) (h2 : s.qtyEq y z = .ok true) :
+    s.qtyEq x z = .ok true := by
+  rw [eq_is_ref_eq hx hy] at h1
+  rw [eq_is_ref_eq hy hz] at h2
+  rw [eq_is_ref_eq hx hz]
+  simp only [Except.ok.injEq, decide_eq_true_eq] at h1 h2 ⊢
+  exact h1.trans h2
+
+/-- **exactly one of `<`, `==`, `>` holds** -/
+theorem exactly_one_of_lt_eq_gt {c x y a b} (hx : InType s c x a) (hy : InType s c y b) :
+    ∃ l e g : Bool, s.qtyCmp .lt x y = .ok l ∧ s.qtyEq x y = .ok e ∧ s.qtyCmp .gt x y = .ok g ∧
+      ((l = true ∧ e = false ∧ g = false) ∨ (l = false ∧ e = true ∧ g = false) ∨
+       (l = false ∧ e = false ∧ g = true)) := by
+  refine ⟨_, _, _, cmp_is_ref_cmp .lt hx hy, eq_is_ref_eq hx hy, cmp_is_ref_cmp .gt hx hy, ?_⟩
+  simp only [Cmp.eval, decide_eq_true_eq, decide_eq_false_iff_not]
+  rcases lt_trichotomy (refVal x a) (refVal y b) with h | h | h
+  · left; exact ⟨h, ne_of_lt h, not_lt.mpr h.le⟩
+  · right; left; exact ⟨by rw [h]; exact lt_irrefl _, h, by rw [h]; exact lt_irrefl _⟩
+  · right; right; exact ⟨not_lt.mpr h.le, ne_of_gt h, h⟩
+
+/-- **the order is total and transitive, so sorting works**: `<=` is a total
+preorder on the quantities of one type, and `<` is its strict part -/
+theorem order_total {c x y a b} (hx : InType s c x a) (hy : InType s c y b) :
+    s.qtyCmp .le x y = .ok true ∨ s.qtyCmp .le y x = .ok true := by
+  rw [cmp_is_ref_cmp .le hx hy, cmp_is_ref_cmp .le hy hx]
+  simp only [Cmp.eval, Except.ok.injEq, decide_eq_true_eq]
+  exact le_total _ _
+
+theorem order_transitive {c x y z a b d} (o : Cmp) (hx : InType s c x a) (hy : InType s c y b)
+    (hz : InType s c z d) (h1 : s.qtyCmp o x y = .ok true) (h2 : s.qtyCmp o y z = .ok true) :
+    s.qtyCmp o x z = .ok true := by
+  rw [cmp_is_ref_cmp o hx hy] at h1
+  rw [cmp_is_ref_cmp o hy hz] at h2
+  rw [cmp_is_ref_cmp o hx hz]
+  cases o <;> simp only [Cmp.eval, Except.ok.injEq, decide_eq_true_eq] at h1 h2 ⊢
+  · exact lt_trans h1 h2
+  · exact le_trans h1 h2
+  · exact gt_trans h1 h2
+  · exact ge_trans h1 h2
+
+theorem lt_is_strict_part_of_le {c x y a b} (hx : InType s c x a) (hy : InType s c y b) :
+    s.qtyCmp .lt x y = .ok true ↔
+      (s.qtyCmp .le x y = .ok true ∧ s.qtyCmp .le y x = .ok false) := by
+  rw [cmp_is_ref_cmp .lt hx hy, cmp_is_ref_cmp .le hx hy, cmp_is_ref_cmp .le hy hx]
+  simp only [Cmp.eval, Except.ok.injEq, decide_eq_true_eq, decide_eq_false_iff_not, not_le]
+  exact ⟨fun h => ⟨h.le, h⟩, fun h => h.2⟩
+
+/-- `<=` and `>=` agree with `==`: antisymmetry by value -/
+theorem le_antisymmetric {c x y a b} (hx : InType s c x a) (hy : InType s c y b)
+    (h1 : s.qtyCmp .le x y = .ok true) (h2 : s.qtyCmp .le y x = .ok true) :
+    s.qtyEq x y = .ok true := by
+  rw [cmp_is_ref_cmp .le hx hy] at h1
+  rw [cmp_is_ref_cmp .le hy hx] at h2
+  rw [eq_is_ref_eq hx hy]
+  simp only [Cmp.eval, Except.ok.injEq, decide_eq_true_eq] at h1 h2 ⊢
+  exact le_antisymm h1 h2
+
 /-! ### known finding D6: negative scale.  With `a = -1` the order of two
 quantities in that unit is the *reverse* of the order of their reference
 values; the code compares amounts (`1 < 2`) although `-1 > -2`. -/
